@@ -251,7 +251,10 @@ func c18Do(c *ev.Ctx, w *c18world, cn *c18conn, st c18step, r *ev.Rand, prevLen 
 			viol("request-did-not-reach-backend:T"+st.kind, map[string]any{})
 		}
 	case "renameat":
-		a, b := genStr(r, maxI(1, st.n)), genStr(r, maxI(1, st.n/2))
+		// the new name gets a prefix: a random two-byte name can be "d1" or
+		// "f2" - a rename over a name the scenario has a fid on fences that fid
+		// (seen in the thorough tier at seed 1, fixed-seed reproducible)
+		a, b := genStr(r, maxI(1, st.n)), "r"+genStr(r, maxI(1, st.n/2))
 		calls, _, ok := w.rpc(c, cn, wire.Trenameat, u(1), a, u(0), b)
 		if !ok {
 			return false
